@@ -2,7 +2,7 @@
    values), theorems only.  Each is closed by `exact <lemma>` and followed by Print Assumptions.
    Model: C05/Model.v (with fixes/F05b.patch applied to add_config and fixes/F05d.patch to SyncLogger.connect, fixes/F05c.patch to the reset acknowledgement).  Clauses that the code does NOT
    satisfy are stated as Definitions `..._full` with a theorem `..._refuted` (finding F05a). *)
-Require Import CF.C05.Model CF.C05.Proofs_create CF.C05.Proofs_add CF.C05.Proofs_unpack CF.C05.Proofs_flags CF.C05.Proofs_hist CF.C05.Proofs_sync CF.C05.Examples.
+Require Import CF.C05.Model CF.C05.Proofs_create CF.C05.Proofs_add CF.C05.Proofs_unpack CF.C05.Proofs_flags CF.C05.Proofs_hist CF.C05.Proofs_sync CF.C05.SyncThreads CF.C05.Proofs_threads CF.C05.Examples.
 Open Scope Z_scope.
 
 (* ---------------------------------------------------------------- acceptance *)
@@ -332,3 +332,61 @@ Theorem C05_synclogger_stopped : forall evs s, sl_conn s = false ->
   sl_conn (fst (sl_run s evs)) = false.
 Proof. exact sl_after_end. Qed.
 Print Assumptions C05_synclogger_stopped.
+
+(* ---------------------------------------------------------------- SyncLogger under threads (SyncThreads.v) *)
+(* dispatcher (data callbacks, link-loss callback in two halves), user thread (connect/disconnect) and
+   consumer (next(): the _is_connected test, then inside get()) interleave arbitrarily. *)
+
+(* For every state and every interleaving without connect(): yielded ++ still queued = queued before ++
+   delivered (own blocks, while connected).  So the iterator yields a PREFIX of what its own blocks
+   delivered during the session: each sample at most once, in order, nothing else. *)
+Theorem C05_threads_conservation : forall evs s,
+  forallb (fun e => negb (is_tconnect e)) evs = true ->
+  tyields (snd (t_run s evs)) ++ qsamples (t_queue (fst (t_run s evs)))
+    = qsamples (t_queue s) ++ tdelivered (t_own s) (t_conn s) evs.
+Proof. exact t_conservation. Qed.
+Print Assumptions C05_threads_conservation.
+
+(* One session, whatever happened to the object before (earlier sessions, unread samples, sentinels): after
+   connect() nothing of an earlier run is yielded. *)
+Theorem C05_threads_session : forall s0 evs, t_conn s0 = false ->
+  forallb (fun e => negb (is_tconnect e)) evs = true ->
+  let r := t_run s0 (TConnect :: evs) in
+  tyields (snd r) ++ qsamples (t_queue (fst r)) = tdelivered (t_own s0) true evs.
+Proof. exact t_session. Qed.
+Print Assumptions C05_threads_session.
+
+(* never a sample of another block / another logger's configuration *)
+Theorem C05_threads_nothing_foreign : forall own evs conn k, In k (tdelivered own conn evs) ->
+  exists c, existsb (Z.eqb c) own = true /\ In (TSample c k) evs.
+Proof. exact tdelivered_own. Qed.
+Print Assumptions C05_threads_nothing_foreign.
+
+(* Liveness invariant, for every interleaving in which disconnect() is not called while ... (no explicit
+   disconnect at all): a consumer inside get() always has the connection up, or a sentinel on its way, or
+   something to take.  In particular it is never stuck after a link loss. *)
+Theorem C05_threads_live : forall evs s,
+  forallb (fun e => negb (is_tdisconnect e)) evs = true -> live s -> live (fst (t_run s evs)).
+Proof. exact t_run_live. Qed.
+Print Assumptions C05_threads_live.
+
+Theorem C05_threads_terminates_after_link_loss : forall s, live s -> t_conn s = false -> t_pend s = 0%nat ->
+  let s1 := match t_cons s with CInGet => fst (t_step s TGet) | CIdle => s end in
+  t_cons s1 = CIdle /\ t_step s1 TNext = (s1, OStop).
+Proof. exact t_terminates_after_link_loss. Qed.
+Print Assumptions C05_threads_terminates_after_link_loss.
+
+(* OBSERVATION, stated as a theorem about the model of the unchanged code: disconnect() from another thread
+   while the consumer is inside get() on an empty queue leaves it blocked until a new connect() *)
+Theorem C05_threads_explicit_disconnect_can_block : forall evs s, stuck s ->
+  forallb (fun e => negb (is_tconnect e)) evs = true ->
+  fst (t_run s evs) = s /\ tyields (snd (t_run s evs)) = [].
+Proof. exact t_stuck_for_ever. Qed.
+Print Assumptions C05_threads_explicit_disconnect_can_block.
+
+(* several SyncLoggers on one Crazyflie: each one sees exactly its own projection of the system run, so
+   the theorems above hold for every logger of the system *)
+Theorem C05_threads_system_projection : forall evs ls i s, nth_error ls i = Some s ->
+  nth_error (fst (sys_run ls evs)) i = Some (fst (t_run s (concat (map (proj i) evs)))).
+Proof. exact sys_projection. Qed.
+Print Assumptions C05_threads_system_projection.
